@@ -182,7 +182,7 @@ def run_core(prop, tier, seed, t0, replay_item=None):
         log("[%s] TLC exhaustive: %d distinct / %d generated states in %.0fs, all invariants hold on the design" % (prop, mc["distinct"], mc["generated"], mc["wall_s"]))
         plan = [("wide", 100), ("deep", 45), ("long", 12), ("handles", 40)] if tier == "quick" else [("wide", 1500), ("deep", 700), ("long", 200), ("handles", 600)]
         if prop in ("C12", "C13"):
-            plan.append(("tiny", 40 if tier == "quick" else 600))
+            plan = [("wide", 70), ("deep", 40), ("long", 10), ("handles", 24), ("tiny", 30)] if tier == "quick" else plan + [("tiny", 600)]
         behs, gen_states = generate_core(seed, plan)
         rng = random.Random(seed)
         items = []
@@ -763,6 +763,8 @@ def run_c10(tier, seed, t0, replay_item=None):
                           "call": steps[j]["call"], "allk": tier == "thorough"})
         items.append({"id": "C10-witness-K03", "cfg": {"rs": 20}, "conc": {}, "history": [], "call": {"op": "Mkdir", "p": ["x"], "q": [], "c": "", "k": 0},
                       "witness": "partialread"})
+        items.append({"id": "C10-stale-handle", "cfg": {"rs": rng.choice([3, 20]), "cache": rng.choice(["memory", "file"])}, "conc": {}, "history": [],
+                      "call": {"op": "Mkdir", "p": ["x"], "q": [], "c": "", "k": 0}, "witness": "stale-handle"})
         for j, wc in enumerate(["memory", "file"]):
             items.append({"id": "C10-partialread-close-%d" % j, "cfg": {"rs": rng.choice([3, 20]), "cache": wc}, "conc": {}, "history": [],
                           "call": {"op": "Mkdir", "p": ["x"], "q": [], "c": "", "k": 0}, "witness": "partialread-close"})
@@ -835,13 +837,17 @@ def conc_programs(rng, nclients, ncalls):
             elif x < 57:
                 prog.append({"op": "MkdirAll", "p": ["s", nm, rng.choice(names)], "q": [], "c": "", "k": 0})
             elif x < 65:
-                prog.append({"op": rng.choice(["Remove", "RemoveAll"]), "p": ["s", nm], "q": [], "c": "", "k": 0})
+                # sometimes the shared FILE: a reader that opened it may find it gone when it reads
+                prog.append({"op": rng.choice(["Remove", "RemoveAll"]), "p": ["s", nm if rng.random() < 0.8 else "fix"], "q": [], "c": "", "k": 0})
             elif x < 77:
-                prog.append({"op": "Rename", "p": ["s", nm], "q": ["s", rng.choice(names)], "c": "", "k": 0})
+                prog.append({"op": "Rename", "p": ["s", nm if rng.random() < 0.8 else "fix"], "q": ["s", rng.choice(names + ["fix"])], "c": "", "k": 0})
             elif x < 87:
                 prog.append({"op": rng.choice(["Chmod", "Chown", "Chtimes"]), "p": rng.choice([["s"], ["s", nm], ["s", "fix"]]), "q": [], "c": "", "k": rng.randrange(1, 4)})
-            elif x < 94:
+            elif x < 91:
                 prog.append({"op": "Stat", "p": rng.choice([["s", nm], ["s", "fix"], ["d%d" % ((i + 1) % nclients)]]), "q": [], "c": "", "k": 0})
+            elif x < 94:
+                # whole-file read of the small shared file (one Read call: known finding K04 needs multi-buffer files)
+                prog.append({"op": "ReadFile", "p": ["s", "fix"], "q": [], "c": "", "k": 0})
             else:
                 prog.append({"op": "List", "p": rng.choice([["s"], []]), "q": [], "c": "", "k": 0})
         clients.append(prog)
